@@ -16,7 +16,7 @@
 (*                 name, f, exc, args, form, nch]                          *)
 (*   P.exprs[e] = [kind, k, reads, args, name]                             *)
 (*   P.fns[f]   = [name, params, body, parent, nonlocals, globals]         *)
-(*   P.names    = all identifiers of the program                           *)
+(*   P.names    = all identifiers of the program; P.attrs = attribute names *)
 (* External functions:  T(k, v..) tracer: appends <<"T",k,<<v..>>>> to the  *)
 (* effect log, returns a fresh token;  D(k, v..) logs and returns the next  *)
 (* decision as a bool;  I(k, v..) logs and returns a list whose length is   *)
@@ -37,6 +37,7 @@ VARIABLES pid,     \* index of the program of the batch this behaviour executes
           ctrl,    \* continuation stack (frames)
           envs,    \* activation records  [fn, parent, cellOf : Name -> cell | 0]
           cells,   \* store: cell -> value
+          heap,    \* objects: address -> [attribute -> value]  (attribute state: o.v = e, x = o.v)
           log,     \* effect log
           dec,     \* decisions consumed so far (the input that reproduces the execution)
           status,  \* <<"run",_>> | <<"ret",v>> | <<"exc",e>>
@@ -53,7 +54,7 @@ VARIABLES pid,     \* index of the program of the batch this behaviour executes
           hb,      \* cells that currently hold a value bound by an `except ... as name` clause
           crossed, \* an exception has crossed an activation boundary (raised by a callee into its caller)
           oc       \* "outside the class": an exception raised by a call was caught by a handler of the caller
-vars == <<pid, ctrl, envs, cells, log, dec, status, cur, how, rd, wr, steps, inp, xlog, xnode, xfirst, delx, hb, crossed, oc>>
+vars == <<pid, ctrl, envs, cells, heap, log, dec, status, cur, how, rd, wr, steps, inp, xlog, xnode, xfirst, delx, hb, crossed, oc>>
 
 P        == Progs[pid]
 ND(n)    == P.nodes[n]
@@ -77,7 +78,7 @@ Truthy(v) == CASE v[1] = "b" -> v[2] = 1
 
 (* ---- static scoping (language reference 4.2.2): locals of a function ---- *)
 Binds(n) == LET d == ND(n) IN
-  CASE d.kind \in {"assign", "for", "del"} -> Range(d.tgt)
+  CASE d.kind \in {"assign", "for", "del", "newobj"} -> Range(d.tgt)
     [] d.kind = "call" -> Range(d.tgt)
     [] d.kind = "with" /\ d.name # "" -> {d.name}
     [] d.kind = "def" -> {d.name}
@@ -122,6 +123,18 @@ Eval(e, env, S) ==
         LET c == CellOf(envs, env, x.name) IN
         IF c = 0 \/ cells[c] = Unbound THEN [v |-> NoneV, s |-> [S EXCEPT !.err = "NameError"]]
         ELSE [v |-> cells[c], s |-> [S EXCEPT !.rd = @ \cup {c}]]
+    [] x.kind = "attr" ->        \* base.attr: the base is a variable, the object lives in the heap
+        LET c == CellOf(envs, env, x.name) IN
+        IF c = 0 \/ cells[c] = Unbound THEN [v |-> NoneV, s |-> [S EXCEPT !.err = "NameError"]]
+        ELSE LET b == cells[c]  S1 == [S EXCEPT !.rd = @ \cup {c}] IN
+             IF b[1] # "o" THEN [v |-> NoneV, s |-> [S1 EXCEPT !.err = "AttributeError"]]
+             ELSE IF heap[b[2]][x.attr] = Unbound THEN [v |-> NoneV, s |-> [S1 EXCEPT !.err = "AttributeError"]]
+             ELSE [v |-> heap[b[2]][x.attr], s |-> S1]
+    [] x.kind = "seq2" ->        \* evaluate args[1] then args[2]; the value is that of args[1], the second one is kept in aux
+        LET r1 == Eval(x.args[1], env, S) IN
+        IF r1.s.err # "" THEN r1 ELSE
+        LET r2 == Eval(x.args[2], env, r1.s) IN
+        IF r2.s.err # "" THEN r2 ELSE [v |-> r1.v, s |-> [r2.s EXCEPT !.aux = r2.v]]
     [] x.kind = "const" -> [v |-> IntV(x.k), s |-> S]
     [] x.kind = "none"  -> [v |-> NoneV, s |-> S]
     [] x.kind = "bool"  -> [v |-> BoolV(x.k = 1), s |-> S]
@@ -163,7 +176,7 @@ Eval(e, env, S) ==
         ELSE LET s1 == [r.s EXCEPT !.ops = Append(@, <<"if_exp", Len(r.s.log)>>)] IN
              IF Truthy(r.v) THEN Eval(x.args[2], env, s1) ELSE Eval(x.args[3], env, s1)
 
-S0(ch) == [log |-> log, di |-> 1, ch |-> ch, err |-> "", used |-> <<>>, rd |-> {}, ops |-> <<>>]
+S0(ch) == [log |-> log, di |-> 1, ch |-> ch, err |-> "", used |-> <<>>, rd |-> {}, ops |-> <<>>, aux |-> NoneV]
 \* the choices offered to node n: nch decision slots
 Choices(n) == [1..ND(n).nch -> 0..MaxTrip]
 \* a choice vector is canonical iff it was consumed legally and its unused tail is 0
@@ -231,8 +244,8 @@ Apply(r) ==
   /\ ctrl' = r.ctrl /\ log' = r.log /\ cells' = r.cells
   /\ status' = r.status /\ how' = r.how /\ wr' = r.wr
 
-\* implicit exception (never caught by the E1/E2 handlers the class allows): 1 = NameError, 2 = TypeError
-ExcV(name) == <<"exc", <<"e", IF name = "NameError" THEN 1 ELSE 2, 0>>>>
+\* implicit exception (never caught by the E1/E2 handlers the class allows): 1 NameError, 2 TypeError, 3 AttributeError
+ExcV(name) == <<"exc", <<"e", CASE name = "NameError" -> 1 [] name = "AttributeError" -> 3 [] OTHER -> 2, 0>>>>
 Quiet == UNCHANGED <<envs, dec, log, cells, status>> /\ how' = "" /\ rd' = {} /\ wr' = {}
 
 (* evaluate expression e of node n under every canonical choice vector; K(r) continues *)
@@ -299,6 +312,15 @@ Exec(n) ==
              LET c == CellOf(envs, env, d.tgt[1]) IN
              /\ ctrl' = c1 /\ log' = r.s.log /\ UNCHANGED <<envs, status>> /\ how' = ""
              /\ cells' = SetCell(cells, c, r.v) /\ wr' = {c})
+      [] d.kind = "newobj" ->     \* tgt = O(): a fresh object without attributes (the heap grows in the Step epilogue)
+          LET c == CellOf(envs, env, d.tgt[1]) IN
+          /\ ctrl' = c1 /\ UNCHANGED <<envs, dec, log, status>> /\ how' = "" /\ rd' = {} /\ wr' = {c}
+          /\ cells' = SetCell(cells, c, <<"o", Len(heap) + 1, 0>>)
+      [] d.kind = "setattr" ->    \* base.attr = e  (e is seq2(value, base): Python evaluates the value first)
+          WithEval(n, d.e, env, LAMBDA r :
+             IF r.s.aux[1] # "o"
+             THEN Apply(Prop(ctrl, ExcV("AttributeError"), r.s.log, cells)) /\ UNCHANGED envs
+             ELSE /\ ctrl' = c1 /\ log' = r.s.log /\ UNCHANGED <<envs, status, cells>> /\ how' = "" /\ wr' = {})
       [] d.kind = "expr" ->
           WithEval(n, d.e, env, LAMBDA r :
              /\ ctrl' = c1 /\ log' = r.s.log /\ UNCHANGED <<envs, status, cells>> /\ how' = "" /\ wr' = {})
@@ -382,6 +404,16 @@ Step ==
   /\ status[1] = "run" /\ steps < MaxSteps
   /\ steps' = steps + 1 /\ UNCHANGED <<pid, inp>>
   /\ IF Top.i <= Len(Top.blk) THEN Exec(Top.blk[Top.i]) ELSE Finish
+  /\ LET f0 == Top
+         n0 == IF f0.i <= Len(f0.blk) THEN f0.blk[f0.i] ELSE 0
+         k0 == IF n0 = 0 THEN "" ELSE ND(n0).kind IN
+     heap' = IF k0 = "newobj" /\ how' = "" THEN Append(heap, [a \in Range(P.attrs) |-> Unbound])
+             ELSE IF k0 = "setattr" /\ how' = ""
+             THEN LET used == SubSeq(dec', Len(dec) + 1, Len(dec'))
+                      ch == used \o [j \in 1..(ND(n0).nch - Len(used)) |-> 0]
+                      r == Eval(ND(n0).e, f0.env, S0(ch)) IN
+                  [heap EXCEPT ![r.s.aux[2]][ND(n0).attr] = r.v]
+             ELSE heap
   /\ LET resumed == Top.i > Len(Top.blk) /\ Top.k = "finally"      \* a finally block re-raising its pending exception
          cr == crossed \/ (how' = "exc" /\ NCalls(ctrl') < NCalls(ctrl) /\ status'[1] = "run") IN
      /\ xlog' = IF how' = "exc" /\ ~resumed THEN Len(log') ELSE xlog
@@ -405,6 +437,7 @@ Init ==
      /\ cells = [i \in 1..n |-> IF ord[i] \in Range(FN(1).params)
                                 THEN (IF P.pure = 1 THEN IntV(inp[pidx(ord[i])]) ELSE <<"t", 0, pidx(ord[i])>>)
                                 ELSE Unbound]
+  /\ heap = <<>>
   /\ ctrl = << Frame("call", FN(1).body, 0, 1) >>
   /\ log = <<>> /\ dec = <<>> /\ status = <<"run", NoneV>> /\ cur = 0 /\ steps = 0 /\ how = ""
   /\ rd = {} /\ wr = {} /\ xlog = 0 /\ xnode = 0 /\ xfirst = 0 /\ delx = FALSE /\ hb = {} /\ crossed = FALSE /\ oc = FALSE
